@@ -20,6 +20,10 @@ pub mod csv_core {
                 r.0 is InputEmpty ==> r.1 == input@.len() && input@.len() > 0,
                 // a field that does not end its record consumed at least its delimiter
                 (r.0 matches ReadFieldResult::Field { record_end } && !record_end) ==> r.1 >= 1,
+                // every output byte is a copy of a consumed input byte (unquoting only removes bytes), and OutputFull means
+                // exactly that the output buffer was filled
+                r.2 <= r.1,
+                r.0 is OutputFull ==> r.2 == old(output)@.len(),
         { unimplemented!() }
     }
     }
@@ -60,3 +64,11 @@ pub fn str_to_string(s: &str) -> (r: String)
 pub open spec fn only_line_terminators(s: Seq<u8>) -> bool {
     forall|j: int| 0 <= j < s.len() ==> #[trigger] s[j] == 10u8 || s[j] == 13u8
 }
+
+/// R18: `row.as_bytes()`
+#[verifier::external_body]
+pub fn str_as_bytes<'a>(s: &'a str) -> (r: &'a [u8]) ensures r@ == str_bytes(s), r@.len() <= usize::MAX / 2 { unimplemented!() }
+/// R18: `std::str::from_utf8(field).unwrap().to_string()` on a field csv-core produced from a `&str` row — ASSUMED not to panic
+/// (fields of valid UTF-8 text cut at ASCII delimiters are valid UTF-8); nothing is assumed about the string
+#[verifier::external_body]
+pub fn field_to_string(field: &[u8]) -> (r: String) { unimplemented!() }
